@@ -322,6 +322,13 @@ class Fn:
             if t != "Nd":
                 _fail(e, f"norm of {t}")
             return f"(← npNormLastAxis {_atom(x)})", "Nd"
+        if f == "np.isclose" and len(e.args) == 2 and not kw and isinstance(e.args[1], ast.Constant) \
+                and isinstance(e.args[1].value, (int, float)) and not isinstance(e.args[1].value, bool) and e.args[1].value == 0:
+            # round 6: `np.isclose(c, 0.0)` with NumPy's default tolerances (|c| <= atol = 1e-8)
+            x, t = self.ex(e.args[0], sc)
+            if t != "Nd":
+                _fail(e, f"np.isclose of {t}")
+            return f"(← npIscloseZero {_atom(x)})", "Bool"
         # ---- methods -------------------------------------------------------------------------
         if isinstance(e.func, ast.Attribute):
             m = e.func.attr
@@ -577,7 +584,17 @@ class Fn:
         for v in tvars:
             bsc[v] = (v, "Nd")
         mark = len(self.bound_log)
-        lines, falls = self.block(s.body, ind + 2, bsc, in_loop=True)
+        # round 6: leading `if <test>: continue` statements of the body are carried as guards of the fold step
+        body, guards = list(s.body), []
+        while body and isinstance(body[0], ast.If) and not body[0].orelse and len(body[0].body) == 1 and isinstance(body[0].body[0], ast.Continue):
+            g, tg = self.ex(body[0].test, bsc)
+            if tg != "Bool":
+                _fail(body[0], f"loop guard of type {tg}")
+            guards.append((body[0], g))
+            body = body[1:]
+        if not body:
+            _fail(s, "loop body consists of `continue` guards only")
+        lines, falls = self.block(body, ind + 2 + len(guards), bsc, in_loop=True)
         carried = []
         for n in self.bound_log[mark:]:
             if n in sc and n not in tvars and n not in [c_[0] for c_ in carried]:
@@ -596,8 +613,12 @@ class Fn:
         init = self.export_term(carried, sc, s)
         out = [f"{pad}-- {_unparse1(s)}".rstrip(":") + ":",
                f"{pad}let {pat} ← (pyZip3 {' '.join(iters)}).foldlM (fun {pat} ({', '.join(tvars)}) => do"]
+        for k, (node, g) in enumerate(guards):
+            gp = pad + "    " + "  " * k
+            out.append(f"{gp}-- {_unparse1(node)} continue")
+            out.append(f"{gp}if {g} then pure {_atom(self.export_term(carried, sc, s))} else do")
         out += lines
-        out.append(f"{pad}    pure {_atom(self.export_term(carried, bsc, s))}) {_atom(init)}")
+        out.append(f"{pad}    {'  ' * len(guards)}pure {_atom(self.export_term(carried, bsc, s))}) {_atom(init)}")
         for n, ty in carried:
             sc[n] = (n, ty)
             self.bound_log.append(n)
